@@ -137,3 +137,162 @@ contract(F, 'Env._env_at', props=('C19',),
          hooks={'compare': h_compare}, class_modules={'Env': F}, native=False,
          inline=('pow', 'cos', 'sin', 'exp', 'sqrt'),
          note='transcendental shapes (exp, sin, wel, sqr, cub, curve != 0) are bounded only')
+
+
+# ---- the server encoding: Env._envgen_format (C19) ------------------------------------------
+# "initial level, segment count, release node and loop node (-99 when absent) followed by
+#  target level, duration, shape number and curvature for each segment, with ... curves
+#  wrapped to the number of segments"
+from vf.pyvc import values as VV
+from vf.pyvc.engine import Unsupported
+G = 'sc3/synth/_graphparam.py'
+U = 'sc3/base/utils.py'
+
+
+def conv_seq(name):
+    n = z3.Int(name + '.len')
+    arr = z3.Array(name + '.items', z3.IntSort(), VV.Any)
+    return V('seq', extra={'len': n, 'name': name, 'facts': [n >= 0],
+                           'get': (lambda eng_, i, st_, _a=arr: V('any', z3.Select(_a, i)))})
+
+
+def ef_ugen_param(eng, selfv, args, kwargs, st, node):
+    return [(st, V('obj', oid='param', extra={'of': args[0]}))]
+
+
+def ef_as_list(eng, selfv, args, kwargs, st, node):
+    return [(st, V('obj', oid='as_list', extra={'of': args[0]}))]
+
+
+def ef_getattr(eng, obj, name, st, node):
+    if obj.k == 'obj' and obj.oid == 'param' and name == '_as_ugen_input':
+        def conv(eng, a, kw, st, node, _o=obj):
+            src = _o.extra['of']
+            # the four converted attributes: levels / times / curves (sequences), nodes (scalar or None)
+            if src.k == 'obj' and src.oid == 'self.levels':
+                return [(st, conv_seq('levels'))]
+            if src.k == 'seq' and src.extra.get('name') == 'self.times':
+                return [(st, conv_seq('times'))]
+            if src.k == 'obj' and src.oid == 'as_list':
+                return [(st, conv_seq('curves'))]
+            if src.k in ('none', 'any', 'int'):
+                which = 'node!%d' % next(eng.counter)
+                st.trace.append(('node-converted', src, which))
+                return [(st, V('any', z3.Const(which, VV.Any), extra={'from': src}))]
+            raise Unsupported(node, '_as_ugen_input of %r' % (src,))
+        return [(st, V('func', py=('spec', conv)))]
+    if obj.k == 'list' and name == 'append':
+        def app(eng, a, kw, st, node):
+            st.trace.append(('append', a[0]))
+            return [(st, NONE)]
+        return [(st, V('func', py=('spec', app)))]
+    return None
+
+
+def ef_listcomp(eng, e, it, st, node):
+    st.trace.append(('flop-to-tuples', it))
+    return [(st, V('obj', oid='channel-arrays'))]
+
+
+def ef_flop(eng, selfv, args, kwargs, st, node):
+    st.trace.append(('flop', args[0]))
+    return [(st, V('obj', oid='flopped'))]
+
+
+SHAPE_OF = z3.Function('shape_number_of', VV.Any, VV.Any)
+CURVE_OF = z3.Function('curve_value_of', VV.Any, VV.Any)
+
+
+def ef_pure(fn):
+    """_shape_number / _curve_value are pure functions of their argument: an uninterpreted
+    function, so that WHERE they are called (per segment, hoisted, cached) does not matter,
+    only which value ends up in the array"""
+    def pol(eng, selfv, args, kwargs, st, node):
+        if len(args) != 1 or args[0].k != 'any':
+            raise Unsupported(node, 'shape/curve of %r' % (args,))
+        return [(st, V('any', fn(args[0].z)))]
+    return pol
+
+
+def ef_since(trace, ordinal=0):
+    idx = -1
+    for i, e in enumerate(trace):
+        if e[0] == 'loop-head' and e[1] == ordinal:
+            idx = i
+    return trace[idx + 1:] if idx >= 0 else None
+
+
+def sel(name, i):
+    return z3.Select(z3.Array(name + '.items', z3.IntSort(), VV.Any), i)
+
+
+def per_segment(c, L):
+    ev = ef_since(c.trace)
+    if not ev:
+        return z3.BoolVal(True)
+    ev = [e for e in ev if e[0] == 'append']
+    if len(ev) != 4 or any(e[1].k != 'any' for e in ev):
+        return z3.BoolVal(False)
+    i = L.i - 1
+    lv, tm, sh, cv = [e[1].z for e in ev]
+    wrapped = sel('curves', i % z3.Int('curves.len'))
+    return z3.And(lv == sel('levels', i + 1),            # target level of segment i
+                  tm == sel('times', i),                 # its duration
+                  sh == SHAPE_OF(wrapped),               # shape number of curves[i mod len]
+                  cv == CURVE_OF(wrapped))               # curvature of curves[i mod len]
+
+
+def format_post(c):
+    t = c.trace
+    heads = [i for i, e in enumerate(t) if e[0] == 'loop-head']
+    if not heads:
+        return z3.BoolVal(False)
+    head = [e for e in t[:heads[0]] if e[0] == 'append']
+    if len(head) != 4:
+        return z3.BoolVal(False)
+    l0, size, rel, loop = [e[1] for e in head]
+    if l0.k != 'any' or size.k != 'int':
+        return z3.BoolVal(False)
+
+    def node_ok(v, which):
+        # the converted node, or -99 when the conversion gives None
+        if v.k == 'int':
+            return z3.BoolVal(z3.is_int_value(z3.simplify(v.z)) and z3.simplify(v.z).as_long() == -99)
+        src = v.extra.get('from') if v.k == 'any' and v.extra else None
+        same_src = src is not None and src.k == which.k and (src.k == 'none' or z3.eq(src.z, which.z))
+        return z3.BoolVal(bool(same_src))
+    relsrc, loopsrc = c.pre.self.v('release_node'), c.pre.self.v('loop_node')
+    tail = [e for e in t[heads[-1]:] if e[0] in ('append', 'flop', 'flop-to-tuples')]
+    ok_tail = [e[0] for e in tail] == ['flop', 'flop-to-tuples'] and c.resultv.k == 'obj' \
+        and c.resultv.oid == 'channel-arrays'
+    return z3.And(l0.z == sel('levels', 0), size.z == z3.Int('self.times.len'),
+                  node_ok(rel, relsrc), node_ok(loop, loopsrc), z3.BoolVal(bool(ok_tail)))
+
+
+def times_kind(eng, name):
+    n = z3.Int('self.times.len')
+    return V('seq', extra={'len': n, 'name': 'self.times', 'facts': [n >= 0],
+                           'get': (lambda eng_, i, st_: V('any', z3.Select(z3.Array('self.times.items', z3.IntSort(), VV.Any), i)))})
+
+
+for relk in ('none', 'int'):
+    for loopk in ('none', 'int'):
+        contract(F, 'Env._envgen_format', props=('C19',), params={'self': 'self'},
+                 requires=lambda c: z3.And(z3.Int('curves.len') >= 1, z3.Int('self.times.len') >= 0,
+                                           z3.Int('levels.len') == z3.Int('self.times.len') + 1,
+                                           z3.Int('times.len') == z3.Int('self.times.len')),
+                 ensures=[('level0,count,release,loop(-99-when-absent);then-per-segment-level,time,shape,curve', format_post)],
+                 loops={0: Loop(inv=per_segment)},
+                 fields={'Env': {'__envgen_format': 'none', 'levels': 'obj', 'times': times_kind, 'curves': 'obj',
+                                 'release_node': relk, 'loop_node': loopk}},
+                 hooks={'getattr': ef_getattr, 'listcomp': ef_listcomp},
+                 policies={G + '::ugen_param': ef_ugen_param, U + '::as_list': ef_as_list, U + '::flop': ef_flop,
+                           'Env._shape_number': ef_pure(SHAPE_OF), 'Env._curve_value': ef_pure(CURVE_OF)},
+                 class_modules={'Env': F}, native=False,
+                 note='first call (no cached format); the conversions by ugen_param are opaque: levels/times/'
+                      'curves as converted are arbitrary sequences with len(levels) = len(times) + 1 '
+                      '(Env.__init__ wraps times to the segment count: wrap_extend contract)')
+        from vf.pyvc.spec import REGISTRY
+        key = '%s::Env._envgen_format#release-%s-loop-%s' % (F, relk, loopk)
+        REGISTRY[key] = REGISTRY.pop('%s::Env._envgen_format' % F)
+        REGISTRY[key].key = key
